@@ -110,6 +110,13 @@ fn mode_of(s: &str) -> Option<PublishMode> {
 impl ServerModel {
     /// Compares one observed step with what the statement prescribes and advances the model.
     pub fn check(&mut self, a: &SAct, o: &Obs<ServerSessionEvent>, outs: &[Out], fp_before: &[u8], fp_after: &[u8]) -> Verdict {
+        // further arguments behind the ones a request consists of do not change what it requests
+        if let SAct::PublishExtra { sid, key, mode } = a {
+            return self.check(&SAct::Publish { sid: *sid, key: key.clone(), mode: mode.clone() }, o, outs, fp_before, fp_after);
+        }
+        if let SAct::PlayExtra { sid, key } = a {
+            return self.check(&SAct::Play { sid: *sid, key: key.clone() }, o, outs, fp_before, fp_after);
+        }
         if let Some(p) = &o.panicked {
             return v("panic", format!("{:?} panicked: {}", a, p));
         }
@@ -213,6 +220,7 @@ impl ServerModel {
                 }
             }
             SAct::PublishMalformed { .. } => none("malformed-publish"),
+            SAct::PublishExtra { .. } | SAct::PlayExtra { .. } => unreachable!("mapped to Publish / Play above"),
             SAct::Play { sid, key } => match &self.connected {
                 Some(app) => match evs.as_slice() {
                     [] => Ok(()),
@@ -503,6 +511,10 @@ pub fn actions_for(m: &ServerModel, max_streams: usize, max_outstanding: usize, 
         }
     }
     acts.push(SAct::Publish { sid: *live_sids.first().unwrap_or(&0), key: KEY1.into(), mode: "bogus".into() });
+    if m.out.len() < max_outstanding {
+        acts.push(SAct::PublishExtra { sid: *live_sids.first().unwrap_or(&0), key: KEY1.into(), mode: "live".into() });
+        acts.push(SAct::PlayExtra { sid: *live_sids.last().unwrap_or(&0), key: KEY2.into() });
+    }
     acts.push(SAct::ConnectMalformed { shape: 0 });
     if extended {
         acts.push(SAct::ConnectMalformed { shape: 1 });
